@@ -49,6 +49,11 @@ pub struct LargeCfg {
     pub tail_free: Vec<u32>,
     /// clusters 3..3+head_used are pre-marked BAD, so an allocation that wraps lands behind them
     pub head_used: u32,
+    /// the clusters whose byte offset equals, modulo 2^32, the offset of one of the last 64 clusters are pre-marked
+    /// BAD: a write whose offset arithmetic wraps at 32 bits then lands in a cluster that is neither free nor the
+    /// writer's (C11), instead of in free space where only the content checks would notice
+    #[serde(default)]
+    pub alias_bad: bool,
 }
 
 pub const CANARY: u8 = 0xC7;
@@ -268,6 +273,16 @@ fn build_base(cfg: &VolCfg) -> Result<Store, String> {
         for k in 0..l.tail_window.min(maxc - 3) {
             if !l.tail_free.contains(&k) && !(g.width == 32 && maxc - k == g.raw.root_clus) {
                 set_fat_all(&mut store, &g, maxc - k, bad);
+            }
+        }
+        if l.alias_bad {
+            let wrap = (1u64 << 32) / g.cluster_size();
+            for k in 0..64u32.min(maxc - 3) {
+                let t = (maxc - k) as u64;
+                let alias = ((t - 2) % wrap + 2) as u32;
+                if alias as u64 != t && alias > 2 && !(g.width == 32 && alias == g.raw.root_clus) {
+                    set_fat_all(&mut store, &g, alias, bad);
+                }
             }
         }
         for c in 3..(3 + l.head_used).min(maxc) {
